@@ -6,6 +6,7 @@
 use std::{collections::BTreeSet, path::PathBuf};
 
 use quote::format_ident;
+use syn::ext::IdentExt;
 use syn::{self, parse_quote};
 
 use crate::{
@@ -110,23 +111,23 @@ pub(super) fn generate_parser_actions(generator: &ParserGenerator) -> Result<()>
             // NT: First | Second | Third;
             // TODO: Are non-terminals allowed in the RHS?
             syn::Item::Enum(e) => {
-                let type_name = e.ident.to_string();
+                let type_name = e.ident.unraw().to_string();
                 log!("Found enum type '{}'", type_name);
                 type_names.insert(type_name);
             }
             syn::Item::Struct(e) => {
-                let type_name = e.ident.to_string();
+                let type_name = e.ident.unraw().to_string();
                 log!("Found struct type '{}'", type_name);
                 type_names.insert(type_name);
             }
             // Used for actions
             syn::Item::Fn(f) => {
-                let type_name = f.sig.ident.to_string();
+                let type_name = f.sig.ident.unraw().to_string();
                 log!("Found action function '{}'", type_name);
                 action_names.insert(type_name);
             }
             syn::Item::Type(t) => {
-                let type_name = t.ident.to_string();
+                let type_name = t.ident.unraw().to_string();
                 log!("Found type '{}'", type_name);
                 type_names.insert(type_name);
             }
